@@ -1,36 +1,693 @@
 //! ConcurrentStream workloads and oracles (C13, C14, C15).
-use crate::gen::{Plan, Profile};
-use crate::leaf::Out;
+//!
+//! The source is a scripted stream (`.co()`) or a `Vec` (`into_co_stream()`); every
+//! closure handed to `map` / `for_each` / `try_for_each` logs its invocation and
+//! returns a dynamically created *scripted work future* (a leaf of the root), so the
+//! scheduler decides the interleaving of source readiness and work progress. The
+//! real `futures-buffered::FuturesUnordered` sits between them.
+
+use crate::gen::{fut_script, Plan, Profile, Shape};
+use crate::leaf::{harvest_out, leaf_poll_common, Harvest, Out, SimStream, Val};
 use crate::roots::Root;
-use crate::world::{NodeId, World};
+use crate::world::{with, Ev, Family, NodeId, Res, Step, Terminal as Term, World, NO_NODE, ROOT};
+use futures_concurrency::concurrent_stream::{ConcurrentStream, IntoConcurrentStream};
+use futures_concurrency::prelude::*;
+use std::future::Future;
+use std::marker::PhantomData;
+use std::num::NonZeroUsize;
+use std::pin::Pin;
+use std::task::{Context, Poll};
+
+// ------------------------------------------------------------------ spec
+
+#[derive(Clone, Copy, PartialEq, Eq, Debug)]
+pub enum Terminal {
+    ForEach,
+    TryForEach,
+    CollectVec,
+    CollectResult,
+}
+
+impl Terminal {
+    fn name(self) -> &'static str {
+        match self {
+            Terminal::ForEach => "for_each",
+            Terminal::TryForEach => "try_for_each",
+            Terminal::CollectVec => "collect_vec",
+            Terminal::CollectResult => "collect_result",
+        }
+    }
+}
+
+#[derive(Clone, Copy, PartialEq, Eq, Debug)]
+pub enum Ad {
+    Map,
+    Enumerate,
+    Take,
+    Limit,
+}
+
+#[derive(Clone, Debug)]
+pub struct CoSpec {
+    pub stack: usize,
+    pub vec_source: bool,
+    pub vec_len: usize,
+    /// argument of the adapter at each position (take: n; limit: n with 0 = None)
+    pub args: [u32; 3],
+    pub terminal: Terminal,
+}
+
+impl CoSpec {
+    pub fn ads(&self) -> &'static [Ad] {
+        STACKS[self.stack].1
+    }
+    pub fn take(&self) -> Option<usize> {
+        self.ads().iter().enumerate().filter(|(_, a)| **a == Ad::Take).map(|(i, _)| self.args[i] as usize).min()
+    }
+    /// effective concurrency limit: the `limit` adapter closest to the terminal wins
+    pub fn limit(&self) -> Option<usize> {
+        self.ads().iter().enumerate().rev().find(|(_, a)| **a == Ad::Limit).and_then(|(i, _)| match self.args[i] {
+            0 => None,
+            n => Some(n as usize),
+        })
+    }
+    pub fn key(&self) -> String {
+        format!(
+            "co/{}/{}/{}{}",
+            self.terminal.name(),
+            STACKS[self.stack].0,
+            if self.vec_source { "vec" } else { "stream" },
+            if self.take() == Some(0) { "/take0" } else { "" }
+        )
+    }
+    pub fn describe(&self) -> String {
+        let mut s = if self.vec_source { format!("vec(len {}).into_co_stream()", self.vec_len) } else { "scripted_stream.co()".to_string() };
+        for (i, a) in self.ads().iter().enumerate() {
+            match a {
+                Ad::Map => s.push_str(".map(f)"),
+                Ad::Enumerate => s.push_str(".enumerate()"),
+                Ad::Take => s.push_str(&format!(".take({})", self.args[i])),
+                Ad::Limit => s.push_str(&match self.args[i] {
+                    0 => ".limit(None)".to_string(),
+                    n => format!(".limit({n})"),
+                }),
+            }
+        }
+        s.push_str(match self.terminal {
+            Terminal::ForEach => ".for_each(g)",
+            Terminal::TryForEach => ".try_for_each(g)",
+            Terminal::CollectVec => ".collect::<Vec<_>>()",
+            Terminal::CollectResult => ".map(try_f).collect::<Result<Vec<_>, _>>()",
+        });
+        s
+    }
+}
+
+// ------------------------------------------------------------------ model
+
+#[derive(Clone, Copy, PartialEq, Eq, Debug)]
+pub enum StageKind {
+    Map,
+    TryMap,
+    ForEach,
+    TryForEach,
+}
+
+pub struct Work {
+    pub node: NodeId,
+    pub stage: u8,
+    pub item: u32,
+}
 
 #[derive(Default)]
 pub struct CoModel {
     pub active: bool,
+    pub source: Option<NodeId>,
+    pub vec_items: Vec<u32>,
+    pub stages: Vec<StageKind>,
+    pub calls: Vec<Vec<u32>>,
+    pub works: Vec<Work>,
+    pub limit: Option<usize>,
+    pub take: Option<usize>,
+    pub terminal: Option<Terminal>,
+    pub errs: Vec<u32>,
+    pub first_err_at: Option<usize>,
+    pub resolved: bool,
 }
 
-#[derive(Clone, Debug)]
-pub struct CoSpec {}
+fn co_prop(w: &World) -> bool {
+    matches!(w.prop, "C13" | "C14" | "C15")
+}
 
-impl CoSpec {
-    pub fn key(&self) -> String {
-        "co".into()
+fn cflag(w: &mut World, suffix: &'static str, msg: impl FnOnce() -> String) {
+    if co_prop(w) {
+        w.flag_current(suffix, msg);
     }
-    pub fn describe(&self) -> String {
-        "co".into()
+}
+
+fn produced(w: &World) -> Vec<u32> {
+    match w.model.co.source {
+        Some(s) => w.node(s).produced.clone(),
+        None => w.model.co.vec_items.clone(),
     }
 }
 
-pub fn on_root_poll_end(_w: &mut World, _out: &Out) {}
-
-pub fn blocked(_w: &World) -> Result<(), (NodeId, String)> {
-    Ok(())
+fn in_flight(w: &World) -> usize {
+    w.model.co.works.iter().filter(|k| !w.node(k.node).done && w.node(k.node).dropped == 0).count()
 }
 
-pub fn plan(w: &mut World, p: &Profile, _prop: &str) -> Plan {
-    crate::gen::flat(w, p)
+/// Called from a closure of stage `stage` with the item it received.
+fn on_closure(w: &mut World, stage: u8, vid: u32, indices: &[usize]) {
+    w.emit(Ev::ClosureCalled { which: stage, item: vid });
+    let prod = produced(w);
+    let pos = prod.iter().position(|&p| p == vid);
+    let kind = w.model.co.stages[stage as usize];
+    match pos {
+        None => cflag(w, "unknown_item", || format!("closure of stage {stage} ({kind:?}) was called with v{vid}, which the source never produced")),
+        Some(pos) => {
+            if w.model.co.calls[stage as usize].contains(&vid) {
+                cflag(w, "twice", || format!("closure of stage {stage} ({kind:?}) was called a second time for source item #{pos} (v{vid})"));
+            }
+            for &ix in indices {
+                if ix != pos {
+                    cflag(w, "enumerate", || format!("enumerate paired source item #{pos} (v{vid}) with index {ix}"));
+                }
+            }
+            if let Some(n) = w.model.co.take {
+                if pos >= n {
+                    cflag(w, "take", || format!("take({n}) in the stack, yet source item #{pos} (v{vid}) reached the closure of stage {stage} ({kind:?})"));
+                }
+            }
+        }
+    }
+    w.model.co.calls[stage as usize].push(vid);
 }
 
-pub fn build(_spec: &CoSpec, _plan: &Plan) -> Box<dyn Root> {
-    unimplemented!()
+fn on_work_created(w: &mut World, node: NodeId, stage: u8, item: u32) {
+    w.emit(Ev::WorkCreated { node });
+    w.model.co.works.push(Work { node, stage, item });
+    let bounded = matches!(w.model.co.terminal, Some(Terminal::ForEach | Terminal::TryForEach));
+    if let (true, Some(n)) = (bounded, w.model.co.limit) {
+        let live = in_flight(w);
+        if live > n {
+            cflag(w, "limit", || format!("{live} closure futures are in flight (created, not completed, not dropped) although the concurrency limit is {n}"));
+        }
+        if live == n {
+            w.stats.p_backpressure += 1;
+        }
+    }
+}
+
+/// A work future or the source finished a poll.
+pub fn on_poll_end(w: &mut World, id: NodeId, res: Res, val: Option<u32>) {
+    if !w.model.co.active {
+        return;
+    }
+    if Some(id) == w.model.co.source {
+        if res == Res::Some {
+            if let Some(at) = w.model.co.first_err_at {
+                cflag(w, "source_after_error", || format!("an item was taken from the source after a work future had returned Err (log position {at})"));
+            }
+        }
+        return;
+    }
+    if res == Res::Err {
+        if let Some(v) = val {
+            w.model.co.errs.push(v);
+        }
+        if w.model.co.first_err_at.is_none() {
+            w.model.co.first_err_at = Some(w.log.len());
+        }
+    }
+}
+
+pub fn on_root_poll_end(w: &mut World, out: &Out) {
+    if !w.model.co.active {
+        return;
+    }
+    if out.res == Res::Pending || out.res == Res::Panic {
+        return;
+    }
+    w.model.co.resolved = true;
+    let term = w.model.co.terminal.unwrap();
+    let prod = produced(w);
+    let want: Vec<u32> = match w.model.co.take {
+        Some(n) => prod.iter().copied().take(n).collect(),
+        None => prod.clone(),
+    };
+    let errs = w.model.co.errs.clone();
+    let is_err = out.res == Res::Err;
+    // ---- error results
+    if is_err {
+        let e = out.vals.first().copied().unwrap_or(u32::MAX);
+        if !errs.contains(&e) {
+            cflag(w, "invented_error", || format!("the operation resolved to Err(v{e}) but no work future returned that error"));
+        }
+        if w.model.co.first_err_at.is_some() && in_flight(w) > 0 {
+            w.stats.p_err_in_flush += 0;
+        }
+        return;
+    }
+    if !errs.is_empty() {
+        let e = errs[0];
+        cflag(w, "swallowed_error", || format!("a work future returned Err(v{e}) before the operation resolved, yet the result is {}", out.res.name()));
+        return;
+    }
+    // ---- successful completion: everything the stack should process was processed
+    let source_done = match w.model.co.source {
+        Some(s) => w.node(s).done && w.node(s).last == Some(Res::None),
+        None => true,
+    };
+    let truncated = matches!(w.model.co.take, Some(n) if prod.len() >= n);
+    if !truncated && !source_done {
+        cflag(w, "early", || "the operation resolved successfully although the source has not ended and no take(n) limit was reached".to_string());
+    }
+    if w.model.co.source.is_none() && !truncated {
+        // vec source: every element must have been taken
+    }
+    let last_stage = w.model.co.stages.len().saturating_sub(1);
+    for (k, kind) in w.model.co.stages.clone().into_iter().enumerate() {
+        let calls = w.model.co.calls[k].clone();
+        for &v in &want {
+            let c = calls.iter().filter(|&&x| x == v).count();
+            if c != 1 {
+                let pos = prod.iter().position(|&p| p == v).unwrap_or(usize::MAX);
+                cflag(w, "missed", || format!("closure of stage {k} ({kind:?}) was called {c} times for source item #{pos} (v{v}); expected exactly once"));
+            }
+        }
+        if calls.len() > want.len() {
+            let (c, n) = (calls.len(), want.len());
+            cflag(w, "count", || format!("closure of stage {k} ({kind:?}) was called {c} times but exactly {n} source items should be processed"));
+        }
+        let _ = last_stage;
+    }
+    // every created work future has completed
+    let pending: Vec<NodeId> = w.model.co.works.iter().filter(|k| !w.node(k.node).done).map(|k| k.node).collect();
+    if let Some(&n) = pending.first() {
+        cflag(w, "incomplete", || format!("the operation resolved successfully although work future n{n} has not completed ({} outstanding)", pending.len()));
+    }
+    // collected output
+    if matches!(term, Terminal::CollectVec | Terminal::CollectResult) {
+        let mut got = out.vals.clone();
+        let mut exp = want.clone();
+        got.sort_unstable();
+        exp.sort_unstable();
+        if got != exp {
+            cflag(w, "collect", || format!("collected values {got:?} differ (as a multiset) from the outputs of the processed items {exp:?}"));
+        }
+    }
+}
+
+/// Is a Pending concurrent-stream root legitimately blocked?
+pub fn blocked(w: &World) -> Result<(), (NodeId, String)> {
+    let mut waiting_on = None;
+    let live_kids: Vec<NodeId> = w.node(ROOT).children.iter().copied().filter(|&c| !w.node(c).done && w.node(c).dropped == 0).collect();
+    for &c in &live_kids {
+        let n = w.node(c);
+        if n.parked() {
+            if n.fired_cur {
+                return Err((c, format!("n{c} was woken after its last poll but never polled again")));
+            }
+            if n.pending_events > 0 {
+                return Err((c, format!("n{c} still has a scheduled wake-up (harness)")));
+            }
+            waiting_on = Some(c);
+        }
+    }
+    match waiting_on {
+        Some(_) => Ok(()),
+        None => Err((ROOT, "no source or work future is pending, yet the operation has not resolved".to_string())),
+    }
+}
+
+pub fn at_root_drop_end(w: &mut World) {
+    if !w.model.co.active {
+        return;
+    }
+    for k in 0..w.model.co.works.len() {
+        let n = w.model.co.works[k].node;
+        if w.node(n).dropped == 0 {
+            cflag(w, "outlive", || format!("work future n{n} is still alive after the drop of the operation's future returned"));
+            return;
+        }
+    }
+}
+
+// ------------------------------------------------------------------ items
+
+pub trait CoItem: Harvest + 'static {
+    fn val_id(&self) -> u32;
+    fn indices(&self, out: &mut Vec<usize>);
+}
+impl CoItem for Val {
+    fn val_id(&self) -> u32 {
+        self.id
+    }
+    fn indices(&self, _out: &mut Vec<usize>) {}
+}
+impl<I: CoItem> CoItem for (usize, I) {
+    fn val_id(&self) -> u32 {
+        self.1.val_id()
+    }
+    fn indices(&self, out: &mut Vec<usize>) {
+        out.push(self.0);
+        self.1.indices(out);
+    }
+}
+impl Harvest for usize {
+    fn harvest(&self, _out: &mut Vec<(u32, u32)>) {}
+}
+
+// ------------------------------------------------------------------ work futures
+
+pub trait Finish<I>: 'static {
+    type Out;
+    const FALLIBLE: bool;
+    /// Build the output. Must not drop values while the world is borrowed.
+    fn finish(node: NodeId, item: I, err: bool) -> (Self::Out, Res, Option<u32>);
+}
+pub struct Pass;
+pub struct TryPass;
+pub struct Unit;
+pub struct TryUnit;
+
+impl<I: CoItem> Finish<I> for Pass {
+    type Out = I;
+    const FALLIBLE: bool = false;
+    fn finish(_node: NodeId, item: I, _err: bool) -> (I, Res, Option<u32>) {
+        let id = item.val_id();
+        (item, Res::Ready, Some(id))
+    }
+}
+impl<I: CoItem> Finish<I> for TryPass {
+    type Out = Result<I, Val>;
+    const FALLIBLE: bool = true;
+    fn finish(node: NodeId, item: I, err: bool) -> (Result<I, Val>, Res, Option<u32>) {
+        if err {
+            let e = with(|w| Val::new(w, node));
+            let id = e.id;
+            drop(item);
+            (Err(e), Res::Err, Some(id))
+        } else {
+            let id = item.val_id();
+            (Ok(item), Res::Ok, Some(id))
+        }
+    }
+}
+impl<I: CoItem> Finish<I> for Unit {
+    type Out = ();
+    const FALLIBLE: bool = false;
+    fn finish(_node: NodeId, item: I, _err: bool) -> ((), Res, Option<u32>) {
+        drop(item);
+        ((), Res::Ready, None)
+    }
+}
+impl<I: CoItem> Finish<I> for TryUnit {
+    type Out = Result<(), Val>;
+    const FALLIBLE: bool = true;
+    fn finish(node: NodeId, item: I, err: bool) -> (Result<(), Val>, Res, Option<u32>) {
+        drop(item);
+        if err {
+            let e = with(|w| Val::new(w, node));
+            let id = e.id;
+            (Err(e), Res::Err, Some(id))
+        } else {
+            (Ok(()), Res::Ok, None)
+        }
+    }
+}
+
+pub struct SimWork<I, M> {
+    node: NodeId,
+    item: Option<I>,
+    _m: PhantomData<fn() -> M>,
+}
+impl<I, M> Unpin for SimWork<I, M> {}
+impl<I, M> Drop for SimWork<I, M> {
+    fn drop(&mut self) {
+        let id = self.node;
+        with(|w| w.node_dropped(id));
+        // the held item (if any) is dropped after this, outside the world borrow
+    }
+}
+impl<I: CoItem, M: Finish<I>> Future for SimWork<I, M> {
+    type Output = M::Out;
+    fn poll(mut self: Pin<&mut Self>, cx: &mut Context<'_>) -> Poll<M::Out> {
+        let id = self.node;
+        let act = leaf_poll_common(id, cx);
+        match act.step() {
+            Some(Step::Ready { err }) => {
+                let item = self.item.take().expect("harness: work future polled after completion");
+                let (out, res, val) = M::finish(id, item, err && M::FALLIBLE);
+                with(|w| w.poll_end(id, res, val));
+                Poll::Ready(out)
+            }
+            Some(Step::Pend(_)) | None => {
+                with(|w| w.poll_end(id, Res::Pending, None));
+                Poll::Pending
+            }
+            Some(other) => unreachable!("harness: work script contains {other:?}"),
+        }
+    }
+}
+
+/// The closure of closure-stage `stage`: logs the call, creates a scripted work future.
+fn spawn<I: CoItem, M: Finish<I>>(stage: u8, item: I) -> SimWork<I, M> {
+    let mut idx = Vec::new();
+    item.indices(&mut idx);
+    let vid = item.val_id();
+    let node = with(|w| {
+        on_closure(w, stage, vid, &idx);
+        let p = crate::gen::profile(w.prop);
+        let bias = 1 + w.ch.draw("work.errbias", 3);
+        let lp = fut_script(w, M::FALLIBLE, &p, true, bias);
+        let node = w.new_leaf(ROOT, lp.script, lp.term, false, M::FALLIBLE);
+        on_work_created(w, node, stage, vid);
+        node
+    });
+    SimWork { node, item: Some(item), _m: PhantomData }
+}
+
+fn closure<I: CoItem, M: Finish<I>>(stage: u8) -> impl Fn(I) -> SimWork<I, M> + Clone {
+    move |item: I| spawn::<I, M>(stage, item)
+}
+
+// ------------------------------------------------------------------ roots
+
+pub struct CoRoot<O>(Pin<Box<dyn Future<Output = O>>>);
+impl<O: Harvest> Root for CoRoot<O> {
+    fn poll(&mut self, cx: &mut Context<'_>) -> Out {
+        match self.0.as_mut().poll(cx) {
+            Poll::Pending => Out::pending(),
+            Poll::Ready(v) => harvest_out(v, Res::Ready),
+        }
+    }
+}
+fn root<O: Harvest + 'static>(f: impl Future<Output = O> + 'static) -> Box<dyn Root> {
+    Box::new(CoRoot(Box::pin(f)))
+}
+
+/// Names and adapter lists of the generated stacks.
+pub const STACKS: &[(&str, &[Ad])] = &[
+    ("-", &[]),
+    ("map", &[Ad::Map]),
+    ("enumerate", &[Ad::Enumerate]),
+    ("take", &[Ad::Take]),
+    ("limit", &[Ad::Limit]),
+    ("map.map", &[Ad::Map, Ad::Map]),
+    ("map.enumerate", &[Ad::Map, Ad::Enumerate]),
+    ("map.take", &[Ad::Map, Ad::Take]),
+    ("map.limit", &[Ad::Map, Ad::Limit]),
+    ("enumerate.map", &[Ad::Enumerate, Ad::Map]),
+    ("enumerate.enumerate", &[Ad::Enumerate, Ad::Enumerate]),
+    ("enumerate.take", &[Ad::Enumerate, Ad::Take]),
+    ("enumerate.limit", &[Ad::Enumerate, Ad::Limit]),
+    ("take.map", &[Ad::Take, Ad::Map]),
+    ("take.enumerate", &[Ad::Take, Ad::Enumerate]),
+    ("take.take", &[Ad::Take, Ad::Take]),
+    ("take.limit", &[Ad::Take, Ad::Limit]),
+    ("limit.map", &[Ad::Limit, Ad::Map]),
+    ("limit.enumerate", &[Ad::Limit, Ad::Enumerate]),
+    ("limit.take", &[Ad::Limit, Ad::Take]),
+    ("limit.limit", &[Ad::Limit, Ad::Limit]),
+    ("limit.map.take", &[Ad::Limit, Ad::Map, Ad::Take]),
+    ("take.map.limit", &[Ad::Take, Ad::Map, Ad::Limit]),
+    ("map.enumerate.take", &[Ad::Map, Ad::Enumerate, Ad::Take]),
+    ("enumerate.take.map", &[Ad::Enumerate, Ad::Take, Ad::Map]),
+    ("take.enumerate.limit", &[Ad::Take, Ad::Enumerate, Ad::Limit]),
+    ("limit.take.enumerate", &[Ad::Limit, Ad::Take, Ad::Enumerate]),
+    ("map.limit.map", &[Ad::Map, Ad::Limit, Ad::Map]),
+    ("enumerate.map.take", &[Ad::Enumerate, Ad::Map, Ad::Take]),
+    ("limit.enumerate.map", &[Ad::Limit, Ad::Enumerate, Ad::Map]),
+    ("take.limit.take", &[Ad::Take, Ad::Limit, Ad::Take]),
+    ("map.take.enumerate", &[Ad::Map, Ad::Take, Ad::Enumerate]),
+];
+
+fn nz(n: u32) -> Option<NonZeroUsize> {
+    NonZeroUsize::new(n as usize)
+}
+
+/// Apply the adapters of a stack to `$s`; `$st` counts closure stages, `$pos` adapter positions.
+macro_rules! apply {
+    ($s:expr, $args:expr, $st:expr, $pos:expr;) => { ($s, $st) };
+    ($s:expr, $args:expr, $st:expr, $pos:expr; map $($rest:ident)*) => {
+        apply!($s.map(closure::<_, Pass>($st)), $args, $st + 1, $pos + 1; $($rest)*)
+    };
+    ($s:expr, $args:expr, $st:expr, $pos:expr; enumerate $($rest:ident)*) => {
+        apply!($s.enumerate(), $args, $st, $pos + 1; $($rest)*)
+    };
+    ($s:expr, $args:expr, $st:expr, $pos:expr; take $($rest:ident)*) => {
+        apply!($s.take($args[$pos] as usize), $args, $st, $pos + 1; $($rest)*)
+    };
+    ($s:expr, $args:expr, $st:expr, $pos:expr; limit $($rest:ident)*) => {
+        apply!($s.limit(nz($args[$pos])), $args, $st, $pos + 1; $($rest)*)
+    };
+}
+
+macro_rules! terminal {
+    ($src:expr, $spec:expr; $($ad:ident)*) => {{
+        let args = $spec.args;
+        let (s, st): (_, u8) = apply!($src, args, 0u8, 0usize; $($ad)*);
+        match $spec.terminal {
+            Terminal::ForEach => root(s.for_each(closure::<_, Unit>(st))),
+            Terminal::TryForEach => root(s.try_for_each(closure::<_, TryUnit>(st))),
+            Terminal::CollectVec => root(async move { let v: Vec<_> = s.collect().await; v }),
+            Terminal::CollectResult => root(async move {
+                let v: Result<Vec<_>, Val> = s.map(closure::<_, TryPass>(st)).collect().await;
+                v
+            }),
+        }
+    }};
+}
+
+macro_rules! stacks {
+    ($src:expr, $spec:expr; $( $idx:literal => [$($ad:ident)*] ),* $(,)?) => {
+        match $spec.stack {
+            $( $idx => terminal!($src, $spec; $($ad)*), )*
+            other => unreachable!("harness: no stack {other}"),
+        }
+    };
+}
+
+macro_rules! all_stacks {
+    ($src:expr, $spec:expr) => {
+        stacks!($src, $spec;
+            0 => [], 1 => [map], 2 => [enumerate], 3 => [take], 4 => [limit],
+            5 => [map map], 6 => [map enumerate], 7 => [map take], 8 => [map limit],
+            9 => [enumerate map], 10 => [enumerate enumerate], 11 => [enumerate take], 12 => [enumerate limit],
+            13 => [take map], 14 => [take enumerate], 15 => [take take], 16 => [take limit],
+            17 => [limit map], 18 => [limit enumerate], 19 => [limit take], 20 => [limit limit],
+            21 => [limit map take], 22 => [take map limit], 23 => [map enumerate take], 24 => [enumerate take map],
+            25 => [take enumerate limit], 26 => [limit take enumerate], 27 => [map limit map], 28 => [enumerate map take],
+            29 => [limit enumerate map], 30 => [take limit take], 31 => [map take enumerate],
+        )
+    };
+}
+
+/// Stacks available for the Vec source (a subset, to keep compile time in check).
+pub const VEC_STACKS: &[usize] = &[0, 1, 2, 3, 4, 8, 19];
+
+macro_rules! vec_stacks {
+    ($src:expr, $spec:expr) => {
+        stacks!($src, $spec;
+            0 => [], 1 => [map], 2 => [enumerate], 3 => [take], 4 => [limit], 8 => [map limit], 19 => [limit take],
+        )
+    };
+}
+
+fn stage_kinds(spec: &CoSpec) -> Vec<StageKind> {
+    let mut v: Vec<StageKind> = spec.ads().iter().filter(|a| **a == Ad::Map).map(|_| StageKind::Map).collect();
+    match spec.terminal {
+        Terminal::ForEach => v.push(StageKind::ForEach),
+        Terminal::TryForEach => v.push(StageKind::TryForEach),
+        Terminal::CollectVec => {}
+        Terminal::CollectResult => v.push(StageKind::TryMap),
+    }
+    v
+}
+
+pub fn build(spec: &CoSpec, plan: &Plan) -> Box<dyn Root> {
+    let (src_node, vec_vals) = with(|w| {
+        let r = w.new_node(NO_NODE, Family::CoStream);
+        debug_assert_eq!(r, ROOT);
+        let stages = stage_kinds(spec);
+        w.model.co = CoModel {
+            active: true,
+            calls: vec![Vec::new(); stages.len()],
+            stages,
+            limit: spec.limit(),
+            take: spec.take(),
+            terminal: Some(spec.terminal),
+            ..CoModel::default()
+        };
+        let mut vals = Vec::new();
+        let mut src = None;
+        if spec.vec_source {
+            for _ in 0..spec.vec_len {
+                let v = Val::new(w, NO_NODE);
+                w.model.co.vec_items.push(v.id);
+                vals.push(v);
+            }
+        } else {
+            let lp = &plan.leaves[0];
+            let id = w.new_leaf(ROOT, lp.script.clone(), lp.term, true, false);
+            w.model.co.source = Some(id);
+            src = Some(id);
+        }
+        w.emit(Ev::RootCreated { fam: Family::CoStream });
+        (src, vals)
+    });
+    if spec.vec_source {
+        vec_stacks!(vec_vals.into_co_stream(), spec)
+    } else {
+        all_stacks!(SimStream::new(src_node.unwrap()).co(), spec)
+    }
+}
+
+// ------------------------------------------------------------------ planning
+
+pub fn plan(w: &mut World, p: &Profile, prop: &str) -> Plan {
+    let vec_source = w.ch.draw("co.vec", 5) == 4;
+    let terminals: &[Terminal] = match prop {
+        "C13" => &[Terminal::ForEach],
+        "C14" => &[Terminal::TryForEach, Terminal::CollectResult],
+        "C15" => &[Terminal::CollectVec, Terminal::ForEach, Terminal::TryForEach, Terminal::CollectVec],
+        _ => &[Terminal::ForEach, Terminal::TryForEach, Terminal::CollectVec, Terminal::CollectResult],
+    };
+    let terminal = terminals[w.ch.draw("co.terminal", terminals.len() as u32) as usize];
+    // which stacks are in the property's scope: C13/C14 state their guarantees without take()
+    let no_take = matches!(prop, "C13" | "C14");
+    let pool: Vec<usize> = if vec_source { VEC_STACKS.to_vec() } else { (0..STACKS.len()).collect() };
+    let pool: Vec<usize> = pool.into_iter().filter(|&s| !(no_take && STACKS[s].1.contains(&Ad::Take))).collect();
+    let stack = pool[w.ch.draw("co.stack", pool.len() as u32) as usize];
+    let vec_len = w.ch.draw("co.veclen", 7) as usize;
+    let mut leaves = Vec::new();
+    let mut len_hint = vec_len;
+    if !vec_source {
+        let mut sp = p.clone();
+        sp.allow_never = p.allow_never;
+        let lp = crate::gen::stream_script(w, &sp, false);
+        len_hint = lp.script.iter().filter(|s| matches!(s, Step::Item)).count();
+        leaves.push(lp);
+    }
+    let mut args = [0u32; 3];
+    for (i, a) in STACKS[stack].1.iter().enumerate() {
+        args[i] = match a {
+            Ad::Take => match w.ch.draw("co.take", 8) {
+                0 => 0,
+                1 => 1,
+                2 => 2,
+                3 => len_hint.saturating_sub(1) as u32,
+                4 => len_hint as u32,
+                5 => len_hint as u32 + 1,
+                _ => w.ch.draw("co.take.n", 8),
+            },
+            Ad::Limit => [1, 2, 3, 5, 0, 1, 2][w.ch.draw("co.limit", 7) as usize],
+            _ => 0,
+        };
+    }
+    let spec = CoSpec { stack, vec_source, vec_len, args, terminal };
+    let cancel_at = if p.allow_cancel && w.ch.draw("cancel", 5) == 4 { Some(w.ch.draw("cancel.at", 8)) } else { None };
+    let _ = Term::Finished;
+    Plan { shape: Shape::Co { spec }, leaves, cancel_at, max_yields: u32::MAX, distinguished: None }
 }
